@@ -289,13 +289,17 @@ Print Assumptions C18_continuous_continue_exp.
 (* re-extracted from the working tree on every run (harness/tables/continuous.py): the comparison operators of
    legacy out_of_bounds (x < min or x >= max, per axis) and of experimental in_bounds (>= lo & <= hi), the growth
    rule of the position array (fraction 1/5, at least 1 row, taken when shape[0] <= index), the kth argument of
-   argpartition (k - 1) and the three radius comparisons (dists <= radius**2, dists[x] > 0, distances <= radius)
-   are the ones oob_half, in_closed, growth / add_agent, the guard of EKNearest, neighbors_of and in_radius encode *)
+   argpartition (k - 1), the three radius comparisons (dists <= radius**2, dists[x] > 0, distances <= radius), the
+   shape of the two torus corrections (min + (x - min) % size with each axis' own min and size; in bounds -> unchanged,
+   bounded -> raise, torus -> wrap) and of _remove_agent (re-index active_agents[index:] by -1, copy rows
+   [index+1 : n] onto [index : n-1], then n -= 1) are the ones oob_half, in_closed, growth / add_agent, the guard of
+   EKNearest, neighbors_of, in_radius, wrap / torus_adj and remove_agent encode *)
 Theorem C10_source_shapes :
   gen_cont_legacy_oob = [KLt; KGe; KLt; KGe] /\ gen_cont_exp_in_bounds = [KGe; KLe] /\
   gen_cont_exp_growth = ((1, 5, 1), KLe) /\ gen_cont_exp_kth_offset = -1 /\
-  gen_cont_radius_ops = [KLe; KGt; KLe].
-Proof. exact (conj eq_refl (conj eq_refl (conj eq_refl (conj eq_refl eq_refl)))). Qed.
+  gen_cont_radius_ops = [KLe; KGt; KLe] /\
+  gen_cont_wrap = ([(0, 1, 1); (1, 1, 1)], 1) /\ gen_cont_exp_remove = ((0, -1, 1, 0), 0).
+Proof. exact (conj eq_refl (conj eq_refl (conj eq_refl (conj eq_refl (conj eq_refl (conj eq_refl eq_refl)))))). Qed.
 Print Assumptions C10_source_shapes.
 
 (* the modelled growth is the extracted rule: round(n/5) = (2n+5)/10 rows, but at least the extracted minimum,
